@@ -311,6 +311,27 @@ def rule_r8_result_combinators(body, log, where):
         recv = body[rstart:s_].strip()
         n8d += 1
         body = body[:rstart] + 'match %s { Some(%s) => %s, None => %s }' % (recv, mm.group(2).strip(), mm.group(3).strip(), mm.group(1).strip()) + body[pclose + 1:]
+    n8d2 = 0
+    while True:
+        kind = rs.code_mask(body)
+        hit = None
+        for s_, e_, m in rs.find_code(body, kind, r'\.\s*map_or_else\s*\(', 0, len(body)):
+            hit = (s_, e_, m); break
+        if hit is None:
+            break
+        s_, e_, m = hit
+        popen = e_ - 1
+        pclose = rs.match_close(body, kind, popen)
+        inner = body[popen + 1:pclose]
+        # R8d': `E.map_or_else(F, |x| B)` with F a function path  ->  `match E { Some(x) => B, None => F() }`   (std: Option::map_or_else)
+        mm = re.match(r'\s*([\w:]+)\s*,\s*\|(.+?)\|\s*(.+)$', inner, re.S)
+        if not mm:
+            raise Undecided('rule R8d: unsupported map_or_else shape in %s' % where)
+        rstart = _receiver_start(body, kind, s_)
+        recv = body[rstart:s_].strip()
+        n8d2 += 1
+        body = body[:rstart] + 'match %s { Some(%s) => %s, None => %s() }' % (recv, mm.group(2).strip(), mm.group(3).strip(), mm.group(1).strip()) + body[pclose + 1:]
+    log.hit('R8d.option_map_or_else', n8d2, where)
     n8e = 0
     while True:
         kind = rs.code_mask(body)
